@@ -113,10 +113,10 @@ def local_defs(fn, name):
     if key in _defs_cache:
         return _defs_cache[key]
     defs = []
-    for b, i, e, n in fn.events(live_only=False):
+    for b, i, e, n in fn.events(live_only=True):
         if n["k"] == "decl":
             for v in n["vars"]:
-                if v["name"] == name:
+                if v["name"] == name and "init" in v:
                     defs.append(v.get("init"))
         elif n["k"] == "bin" and n["op"].endswith("=") and n["op"] not in ("==", "!=", "<=", ">="):
             c = fn.kids(e)
@@ -320,6 +320,17 @@ def chain(ctx, rid, pat, steps, why="", variants=None, inst_re=None, mode="dom",
                         good = False
                         ctx.bad(rid, inst0, "%s at line %d is not preceded on every path by %s. %s" % (
                             fn.expr(b)[:80], fn.nodes[b].get("l", 0), mdesc(steps[i]), why), fn.where(b), fn=fn)
+                        break
+            elif mode == "nobefore":
+                # no event of step i can execute after an event of step i+1
+                for b in evs[i + 1]:
+                    for a in evs[i]:
+                        if fn.event_reaches(b, a):
+                            good = False
+                            ctx.bad(rid, inst0, "%s at line %d can execute after %s at line %d. %s" % (
+                                fn.expr(a)[:60], fn.nodes[a].get("l", 0), mdesc(steps[i + 1]), fn.nodes[b].get("l", 0), why), fn.where(a), fn=fn)
+                            break
+                    if not good:
                         break
             else:
                 for a in evs[i]:
